@@ -2,6 +2,7 @@ import XPathV.Model.Api
 import XPathV.Lemmas.Facts
 import XPathV.Lemmas.RootedPlans
 import XPathV.Lemmas.Compose
+import XPathV.Lemmas.Compose2
 /-!
 # C13 — absolute paths ignore the start node; relative paths compose with the context
 
@@ -122,6 +123,41 @@ theorem C13_wrap_not_not (d : Doc) (cfg : ECfg) (fi₁ fi₂ fi₃ : Plan) (P : 
     evalP (F := F) d cfg (.func "not" fi₁ (.pcons (.func "not" fi₂ (.pcons P .pnil)) .pnil)) c =
       evalP (F := F) d cfg (.func "boolean" fi₃ (.pcons P .pnil)) c :=
   not_not_plan d cfg fi₁ fi₂ fi₃ P c h
+
+open XPathV.PredSem XPathV.Compose2 in
+/-- **C13, absolute paths with boolean predicates**: the plan built from any absolute path of the
+C02 fragment (`AbsFrag`: predicates on any step, the merge rewrite included) yields the same
+sequence — or the same failure — from every start node; no assumption on the document, the
+configuration or the start nodes -/
+theorem C13_absolute_build_with_predicates (d : Doc) (cfg : ECfg) (regexOk : RegexOk) (limit : Nat)
+    (snt sdf : Bool) {p : Ast} (hp : AbsFrag p) (fl : Flags) (st : BState) (o : BOut)
+    (h : build regexOk limit snt sdf p fl st = .ok o) (c₁ c₂ : Ref) :
+    sel (F := F) d cfg o.q c₁ = sel (F := F) d cfg o.q c₂ :=
+  abs_build_start_indep2 d cfg regexOk limit snt sdf hp fl st o h c₁ c₂
+
+open XPathV.PredSem XPathV.Compose2 in
+/-- **C13, relative paths with boolean predicates compose with the context**, through the
+builder: if the absolute path `q` addresses exactly `n`, the built plan of `p` at `n` and the built
+plan of `q/p` at the root select the same node set (`appendPath2` descends through the steps and
+the inputs of filters; predicates stay relative to their candidates) -/
+theorem C13_relative_compose_with_predicates {d : Doc} (wf : WF d) (cfg : ECfg) (hns : cfg.nsIface = true)
+    (hinj : HashInj d cfg) (regexOk : RegexOk) (limit : Nat)
+    {q p : Ast} (hq : Frag true q) (hp : RelFrag p) (n : Ref)
+    (h : nodesOf (Spec.eval (F := F) d q ⟨.node 0, 1, 1⟩) = [n])
+    (st st' : BState) (o o' : BOut)
+    (hb : build regexOk limit true false p {} st = .ok o)
+    (hb' : build regexOk limit true false (appendPath2 q p) {} st' = .ok o') :
+    ∃ o1 o2, sel (F := F) d cfg o.q n = .ok o1 ∧ sel (F := F) d cfg o'.q (.node 0) = .ok o2 ∧
+      ∀ x, x ∈ refs o1 ↔ x ∈ refs o2 :=
+  rel_compose_build2 wf cfg hns hinj regexOk limit hq hp n h st st' o o' hb hb'
+
+open XPathV.PredSem XPathV.Compose2 in
+/-- the oracle-side composition law on the fragment with predicates (no assumption at all) -/
+theorem C13_compose_spec_with_predicates (d : Doc) {q p : Ast} (hq : Frag true q) (hp : RelFrag p)
+    (c : Spec.Ctx) (x : Ref) :
+    x ∈ nodesOf (Spec.eval (F := F) d (appendPath2 q p) c) ↔
+      ∃ n ∈ nodesOf (Spec.eval (F := F) d q c), x ∈ nodesOf (Spec.eval (F := F) d p ⟨n, 1, 1⟩) :=
+  eval_append2 d hq hp c x
 
 private def stepA (n : String) : AxisInfo := { axis := "child", typeTest := default, pfx := "", lname := n, prop := "", hasNS := false, nsURI := "" }
 
